@@ -106,6 +106,14 @@ func runC07(r *core.Run) {
 									}
 									c := ewCase{kind: ok.kind, op: ok.op, form: form, mode: mode, api: api, d: d, shape: shape, layA: la, layB: lb, vs: "id"}
 									ewRunCase(r, "C07", c, post)
+									// integer division with zero divisors among the elements: a refusal is required in every mode; what
+									// happens to the destination of a call that is NOT refused is part of the recorded finding's model
+									if ok.op == "Div" && d.IsInteger() && api == "func" && (strings.HasPrefix(mode, "incr") || strings.HasPrefix(mode, "reuse:")) {
+										c.vs = "edge"
+										ewRunCase(r, "C07", c, post)
+										c.vs = "zmid"
+										ewRunCase(r, "C07", c, post)
+									}
 								}
 							}
 						}
